@@ -276,7 +276,7 @@ func keys(m map[string]bool) (out []string) {
 }
 
 func init() {
-	sizes := map[core.Tier]int{core.Quick: 20000, core.Thorough: 1000000}
+	sizes := map[core.Tier]int{core.Quick: 20000, core.Thorough: 6000000}
 	core.Register(&core.Prop{
 		ID:    "C18",
 		Level: "exploration",
